@@ -42,6 +42,8 @@ ROOT_NOTES = [
     ("if:type", "closure conversion in a branch: ill-typed Go"),
     ("signature:result-type", "closure conversion in the result: ill-typed Go"),
     ("call:other-builtin:", "a runtime builtin outside builtinSig"),
+    ("call:missing", "`missing` (non-exhaustive match): Sem's builtin and the runtime function both end in panic:missing; the clause (a sixth call form, compile_aexpr_assign's statement form) is not built yet"),
+    ("node:go", "the apply function of the spawned closure is outside the fragment (extern calls)"),
 ]
 
 def root_note(clause):
